@@ -85,7 +85,7 @@ pub struct Obs {
     pub quiescent_points: usize,
 }
 
-fn erase_ids(s: &str) -> String {
+pub fn erase_ids(s: &str) -> String {
     // task ids, generated node ids and message ids are zero-padded counters of length 8 / 21
     let mut out = String::with_capacity(s.len());
     let b = s.as_bytes();
